@@ -26,11 +26,15 @@ func configs(tier string) []config {
 	var cs []config
 	for _, r := range rates {
 		for _, c := range []int{1, 2, 3} {
-			cs = append(cs, config{c, r})
+			cs = append(cs, config{Cap: c, RateMilli: r})
 		}
 	}
+	// --rate-limit-capacity is a float: a bucket that never holds a whole token (nothing may be released), one of
+	// one and a half tokens
+	cs = append(cs, config{Fractional: true, CapMilli: 500, RateMilli: 1000}, config{Fractional: true, CapMilli: 0, RateMilli: 1000},
+		config{Fractional: true, CapMilli: 1500, RateMilli: 1000}, config{Fractional: true, CapMilli: 500, RateMilli: 200})
 	if tier == "thorough" {
-		cs = append(cs, config{150, 50000}) // Zeno's defaults
+		cs = append(cs, config{Cap: 150, RateMilli: 50000}) // Zeno's defaults
 	}
 	return cs
 }
